@@ -72,6 +72,7 @@ func runWideOnce(prop string, n int) wideResult {
 		}
 	}
 	depth := 0
+	idlePass, idleSeen := false, 0
 	var cl *connlimit.ConnLimiter
 	send := func(addr string) int {
 		w := &codeWriter{}
@@ -87,8 +88,28 @@ func runWideOnce(prop string, n int) wideResult {
 		}
 	}
 	cl, err = connlimit.New(http.HandlerFunc(func(w http.ResponseWriter, r *http.Request) {
+		if res.bad {
+			// a failure has been recorded: unwind (an over-admitted request would otherwise start a nest of its own)
+			w.WriteHeader(200)
+			return
+		}
+		if idlePass {
+			// second pass (below): the request of a source that has just been admitted asks again for the same source
+			if c := send(r.RemoteAddr[:len(r.RemoteAddr)-5]); c != http.StatusTooManyRequests {
+				fail("admitted-over-limit", fmt.Sprintf("source %s (%d sources have come and gone before it in this pass) holds its one connection, its second request was answered %d, want 429", r.RemoteAddr, idleSeen, c))
+			}
+			w.WriteHeader(200)
+			return
+		}
 		depth++
 		me := depth
+		if me <= n {
+			// the source just admitted is at its limit from this instant on, however many sources the limiter holds
+			if c := send(wideAddr(me - 1)); c != http.StatusTooManyRequests {
+				fail("admitted-over-limit", fmt.Sprintf("source %s (the %d-th distinct source, all earlier ones still in flight) holds its one connection, its second request was answered %d, want 429", wideAddr(me-1), me, c))
+			}
+			depth = me
+		}
 		if me < n {
 			if c := send(wideAddr(me)); c != 200 {
 				fail("rejected-below-limit", fmt.Sprintf("source %s has nothing in flight (limit 1; %d OTHER sources hold one connection each) and was answered %d, want 200", wideAddr(me), me, c))
@@ -101,6 +122,17 @@ func runWideOnce(prop string, n int) wideResult {
 	if err != nil {
 		panic(err)
 	}
+	idle := func(net, count int) {
+		idlePass = true
+		for i := 0; i < count && !res.bad; i++ {
+			idleSeen++
+			if c := send(fmt.Sprintf("%d.%d.%d.%d", net, i>>16, (i>>8)&255, i&255)); c != 200 {
+				fail("rejected-below-limit", fmt.Sprintf("idle pass: source %d was answered %d, want 200", i, c))
+			}
+		}
+		idlePass = false
+	}
+	idle(11, 70000) // on the fresh limiter, before the nest; once more (net 12) after it
 	if c := send(wideAddr(0)); c != 200 {
 		fail("rejected-below-limit", fmt.Sprintf("the first request of the first source was answered %d", c))
 	}
@@ -114,6 +146,10 @@ func runWideOnce(prop string, n int) wideResult {
 			fail("slot-not-returned", fmt.Sprintf("after every request has returned, source %s was answered %d, want 200", wideAddr(i), c))
 		}
 	}
+	// idle passes (on the fresh limiter before the nest, and again after it): 70 000 / 3 000 further sources come and go one after the
+	// other; while each is inside the handler its second request must be refused. Bookkeeping that is tidied up "every so
+	// many sources" (a table pruned at a size, a generation counter) meets a request in flight at every count.
+	idle(12, 3000)
 	return res
 }
 
